@@ -150,6 +150,11 @@ def names_of(symbols, fold=True):
     return {_ALIAS.get(x, x) for x in out} if _ALIAS and fold else out
 
 
+def fold(names):
+    """lower-case names with associate names replaced by their selectors"""
+    return {_ALIAS.get(x.lower(), x.lower()) for x in names}
+
+
 def spelled_names_of(symbols):
     """names exactly as loki spells them (associate names are NOT folded to their selectors)"""
     return names_of(symbols, fold=False)
